@@ -15,6 +15,20 @@ pub fn run_seed(seed: u64, id: &str, r: u64) -> u64 {
     mix(mix(seed, hash_str(id)), r)
 }
 
+/// removes this process's scratch area; size-limited filesystems a dead lane may have left mounted in it go first
+pub fn remove_scratch_base() {
+    let base = scratch_base();
+    if let Ok(m) = std::fs::read_to_string("/proc/self/mounts") {
+        let b = base.display().to_string();
+        let mut points: Vec<String> = m.lines().filter_map(|l| l.split_whitespace().nth(1).map(|s| s.to_string())).filter(|p| p.starts_with(&b)).collect();
+        points.sort_by(|a, b| b.len().cmp(&a.len()));
+        for p in points {
+            crate::interp::unmount_tiny(Path::new(&p));
+        }
+    }
+    let _ = std::fs::remove_dir_all(&base);
+}
+
 pub fn scratch_base() -> PathBuf {
     let shm = Path::new("/dev/shm");
     // VERIF_SCRATCH_BASE points the scratch area at another filesystem (e.g. an ext4 directory) to show that
@@ -165,7 +179,7 @@ pub fn lane_main(args: &Args) -> i32 {
     }
     drop(ctx);
     let _ = std::fs::remove_dir_all(&scratch);
-    let _ = std::fs::remove_dir_all(scratch_base());
+    remove_scratch_base();
     let res = json!({
         "evaluations": evaluations,
         "hashes": hashes.iter().collect::<Vec<_>>(),
@@ -374,7 +388,7 @@ pub fn orchestrate(args: &Args) -> i32 {
             Ok(_) => {}
             Err(e) => {
                 eprintln!("HARNESS-ERROR: ptrace seam self-test failed: {e}");
-                let _ = std::fs::remove_dir_all(scratch_base());
+                remove_scratch_base();
                 return 2;
             }
         }
@@ -463,7 +477,7 @@ pub fn orchestrate(args: &Args) -> i32 {
         for h in &harness {
             eprintln!("HARNESS-ERROR: {}", h);
         }
-        let _ = std::fs::remove_dir_all(scratch_base());
+        remove_scratch_base();
         return 2;
     }
 
@@ -634,7 +648,7 @@ pub fn orchestrate(args: &Args) -> i32 {
     if !zero_probes.is_empty() {
         println!("  warning: probes at zero: {:?}", zero_probes);
     }
-    let _ = std::fs::remove_dir_all(scratch_base());
+    remove_scratch_base();
     exit
 }
 
@@ -693,7 +707,7 @@ pub fn replay_main(args: &Args) -> i32 {
     let out = run_scenario(&mut ctx, &spec, &rep["scenario"], "replay");
     drop(ctx);
     if !args.keep {
-        let _ = std::fs::remove_dir_all(scratch_base());
+        remove_scratch_base();
     }
     if let Some(h) = out.harness {
         eprintln!("HARNESS-ERROR: {}", h);
@@ -739,7 +753,7 @@ pub fn gen_main(args: &Args) -> i32 {
         }
         println!("subruns={} hashes={} faults={:?} probes={:?} harness={:?}", out.subruns, out.sub_hashes.len(), out.faults, out.probes, out.harness);
         drop(ctx);
-        let _ = std::fs::remove_dir_all(scratch_base());
+        remove_scratch_base();
         return 0;
     }
     println!("{}", serde_json::to_string_pretty(&sc).unwrap_or_default());
